@@ -6,8 +6,12 @@ use crate::guarded;
 use crate::num::Enc;
 use easy_ml::differentiation::record_operations::SwappedOperations;
 use easy_ml::differentiation::{Index, Primitive, Record, RecordMatrix, RecordTensor};
+use easy_ml::interop::MatrixRefTensor;
+use easy_ml::matrices::views::{MatrixMut, MatrixRef, MatrixView, NoInteriorMutability};
 use easy_ml::matrices::Matrix;
 use easy_ml::numeric::extra::{Cos, Exp, Ln, Pow, Real, RealRef, Sin, Sqrt};
+use easy_ml::tensors::indexing::TensorAccess;
+use easy_ml::tensors::views::{TensorMut, TensorRef, TensorView};
 use easy_ml::tensors::Tensor;
 
 pub type Ten<'a, T, const D: usize> = RecordTensor<'a, T, Tensor<(T, Index), D>, D>;
@@ -220,18 +224,98 @@ where
 }
 
 // ------------------------------------------------------------------ containers
-/// generates the container operator kinds for one container type
+/// a record tensor whose source is a TensorAccess (dimensions in another order) of a tensor
+pub type TenV<'a, T, const D: usize> = RecordTensor<'a, T, TensorAccess<(T, Index), Tensor<(T, Index), D>, D>, D>;
+/// a record matrix whose source is the interop view of a transposed TensorAccess: COLUMN MAJOR
+pub type MatVSrc<T> = MatrixRefTensor<(T, Index), TensorAccess<(T, Index), Tensor<(T, Index), 2>, 2>>;
+pub type MatV<'a, T> = RecordMatrix<'a, T, MatVSrc<T>>;
+
+/// a second copy of a container with the same kind of source (Clone where the source has it)
+pub trait Dup {
+    fn dup(&self) -> Self;
+}
+impl<'a, T: Clone + Primitive, const D: usize> Dup for Ten<'a, T, D> {
+    fn dup(&self) -> Self {
+        self.clone()
+    }
+}
+impl<'a, T: Clone + Primitive, const D: usize> Dup for TenV<'a, T, D> {
+    fn dup(&self) -> Self {
+        self.clone()
+    }
+}
+impl<'a, T: Clone + Primitive> Dup for Mat<'a, T> {
+    fn dup(&self) -> Self {
+        self.clone()
+    }
+}
+impl<'a, T: Real + Clone + Primitive> Dup for MatV<'a, T> {
+    fn dup(&self) -> Self {
+        // MatrixRefTensor is not Clone: rebuild the same kind of source from the elements
+        // (the column major reading of the view is the underlying tensor in its own order)
+        let (rows, cols) = (self.rows(), self.columns());
+        let data: Vec<(T, Index)> = self.view().column_major_iter().collect();
+        let base = Tensor::from([("c", cols), ("r", rows)], data);
+        RecordMatrix::from_existing(
+            self.history(),
+            MatrixView::from(MatrixRefTensor::from(TensorAccess::from(base, ["r", "c"]))),
+        )
+    }
+}
+
+/// the transposed matrix of a 2-dimensional record tensor, as a column major interop view
+pub fn make_matv<'a, T: Real + Clone + Primitive>(x: &Ten<'a, T, 2>) -> MatV<'a, T> {
+    let sh = x.shape();
+    let base = Tensor::from(sh, x.view().iter().collect());
+    RecordMatrix::from_existing(
+        x.history(),
+        MatrixView::from(MatrixRefTensor::from(TensorAccess::from(base, [sh[1].0, sh[0].0]))),
+    )
+}
+/// the record tensor seen through a TensorAccess with the dimension order reversed
+pub fn make_tenv<'a, T: Real + Clone + Primitive, const D: usize>(x: &Ten<'a, T, D>) -> TenV<'a, T, D> {
+    let sh = x.shape();
+    let base = Tensor::from(sh, x.view().iter().collect());
+    let names: [&'static str; D] = std::array::from_fn(|i| sh[D - 1 - i].0);
+    RecordTensor::from_existing(x.history(), TensorView::from(TensorAccess::from(base, names)))
+}
+pub fn ten_owned<'a, T: Real + Clone + Primitive, S: TensorRef<(T, Index), D>, const D: usize>(
+    x: &RecordTensor<'a, T, S, D>,
+) -> Ten<'a, T, D> {
+    RecordTensor::from_existing(x.history(), TensorView::from(Tensor::from(x.shape(), x.view().iter().collect())))
+}
+pub fn mat_owned<'a, T: Real + Clone + Primitive, S: MatrixRef<(T, Index)> + NoInteriorMutability>(
+    x: &RecordMatrix<'a, T, S>,
+) -> Mat<'a, T> {
+    RecordMatrix::from_existing(
+        x.history(),
+        MatrixView::from(Matrix::from_flat_row_major((x.rows(), x.columns()), x.view().row_major_iter().collect())),
+    )
+}
+
+macro_rules! ten_ty {
+    ($a:lifetime, $T:ty, $S:ty, $D:ident) => { RecordTensor<$a, $T, $S, $D> };
+}
+macro_rules! mat_ty {
+    ($a:lifetime, $T:ty, $S:ty, $D:ident) => { RecordMatrix<$a, $T, $S> };
+}
+
+/// generates the container operator kinds for one container family, generic over the SOURCE
+/// of each operand; every result is returned as an owned container
 macro_rules! container_ops {
-    ($un:ident, $bin:ident, $ty:ty $(, $D:ident)?) => {
-        pub fn $un<'a, T: Real + Primitive + Clone + 'static $(, const $D: usize)?>(
+    ($un:ident, $bin:ident, $ct:ident, $owned:ident, $out:ty, [$($bound:tt)*] $(, $D:ident)?) => {
+        pub fn $un<'a, T, S $(, const $D: usize)?>(
             assign: bool,
             code: i64,
             c: &T,
-            x: &$ty,
+            x: &$ct!('a, T, S, D),
             form: usize,
-        ) -> Option<Option<$ty>>
+        ) -> Option<Option<$out>>
         where
+            T: Real + Primitive + Clone + 'static,
             for<'t> &'t T: RealRef<T>,
+            S: $($bound)*,
+            $ct!('a, T, S, D): Dup,
         {
             let f2 = form % 2;
             let f4 = form % 4;
@@ -239,31 +323,31 @@ macro_rules! container_ops {
                 let (f, df) = un_fns::<T>(code, c)?;
                 return Some(guarded(|| {
                     if f2 == 0 {
-                        let mut y = x.clone();
+                        let mut y = x.dup();
                         y.unary_assign(f, df);
-                        y
+                        $owned(&y)
                     } else {
-                        x.clone().do_unary_assign(f, df)
+                        $owned(&x.dup().do_unary_assign(f, df))
                     }
                 }));
             }
             macro_rules! real {
                 ($m:ident) => {
-                    guarded(|| if f2 == 0 { x.$m() } else { x.clone().$m() })
+                    guarded(|| if f2 == 0 { x.$m() } else { x.dup().$m() })
                 };
             }
             macro_rules! num {
                 ($op:tt) => {
                     guarded(|| match f4 {
                         0 => x $op c,
-                        1 => x.clone() $op c.clone(),
+                        1 => x.dup() $op c.clone(),
                         2 => x $op c.clone(),
-                        _ => x.clone() $op c,
+                        _ => x.dup() $op c,
                     })
                 };
             }
             Some(match code {
-                0 => guarded(|| if f2 == 0 { -x } else { -x.clone() }),
+                0 => guarded(|| if f2 == 0 { -x } else { -x.dup() }),
                 1 => real!(sin),
                 2 => real!(cos),
                 3 => real!(exp),
@@ -279,41 +363,46 @@ macro_rules! container_ops {
                 13 => num!(/),
                 14 => guarded(|| match f4 {
                     0 => x.pow(c),
-                    1 => x.clone().pow(c.clone()),
+                    1 => x.dup().pow(c.clone()),
                     2 => x.pow(c.clone()),
-                    _ => x.clone().pow(c),
+                    _ => x.dup().pow(c),
                 }),
                 15 => guarded(|| match f4 {
                     0 => Pow::pow(c, x),
-                    1 => Pow::pow(c.clone(), x.clone()),
-                    2 => Pow::pow(c, x.clone()),
+                    1 => Pow::pow(c.clone(), x.dup()),
+                    2 => Pow::pow(c, x.dup()),
                     _ => Pow::pow(c.clone(), x),
                 }),
                 16 => guarded(|| match f4 {
                     0 => x.sub_swapped(c),
-                    1 => x.clone().sub_swapped(c.clone()),
+                    1 => x.dup().sub_swapped(c.clone()),
                     2 => x.sub_swapped(c.clone()),
-                    _ => x.clone().sub_swapped(c),
+                    _ => x.dup().sub_swapped(c),
                 }),
                 17 => guarded(|| match f4 {
                     0 => x.div_swapped(c),
-                    1 => x.clone().div_swapped(c.clone()),
+                    1 => x.dup().div_swapped(c.clone()),
                     2 => x.div_swapped(c.clone()),
-                    _ => x.clone().div_swapped(c),
+                    _ => x.dup().div_swapped(c),
                 }),
                 _ => return None,
             })
         }
 
-        pub fn $bin<'a, T: Real + Primitive + Clone + 'static $(, const $D: usize)?>(
+        pub fn $bin<'a, T, S1, S2 $(, const $D: usize)?>(
             mode: i64,
             code: i64,
-            x: &$ty,
-            y: &$ty,
+            x: &$ct!('a, T, S1, D),
+            y: &$ct!('a, T, S2, D),
             form: usize,
-        ) -> Option<Option<$ty>>
+        ) -> Option<Option<$out>>
         where
+            T: Real + Primitive + Clone + 'static,
             for<'t> &'t T: RealRef<T>,
+            S1: $($bound)*,
+            S2: $($bound)*,
+            $ct!('a, T, S1, D): Dup,
+            $ct!('a, T, S2, D): Dup,
         {
             let f2 = form % 2;
             let f4 = form % 4;
@@ -322,15 +411,15 @@ macro_rules! container_ops {
                 0 => match code {
                     0 => guarded(|| match f4 {
                         0 => x + y,
-                        1 => x.clone() + y.clone(),
-                        2 => x + y.clone(),
-                        _ => x.clone() + y,
+                        1 => x.dup() + y.dup(),
+                        2 => x + y.dup(),
+                        _ => x.dup() + y,
                     }),
                     1 => guarded(|| match f4 {
                         0 => x - y,
-                        1 => x.clone() - y.clone(),
-                        2 => x - y.clone(),
-                        _ => x.clone() - y,
+                        1 => x.dup() - y.dup(),
+                        2 => x - y.dup(),
+                        _ => x.dup() - y,
                     }),
                     _ => return None,
                 },
@@ -341,20 +430,20 @@ macro_rules! container_ops {
                 },
                 2 => guarded(|| {
                     if f2 == 0 {
-                        let mut z = x.clone();
+                        let mut z = x.dup();
                         z.binary_left_assign(y, f, dx, dy);
-                        z
+                        $owned(&z)
                     } else {
-                        x.clone().do_binary_left_assign(y, f, dx, dy)
+                        $owned(&x.dup().do_binary_left_assign(y, f, dx, dy))
                     }
                 }),
                 3 => guarded(|| {
                     if f2 == 0 {
-                        let mut z = y.clone();
+                        let mut z = y.dup();
                         x.binary_right_assign(&mut z, f, dx, dy);
-                        z
+                        $owned(&z)
                     } else {
-                        x.do_binary_right_assign(y.clone(), f, dx, dy)
+                        $owned(&x.do_binary_right_assign(y.dup(), f, dx, dy))
                     }
                 }),
                 _ => return None,
@@ -363,38 +452,48 @@ macro_rules! container_ops {
     };
 }
 
-container_ops!(ten_un, ten_bin, Ten<'a, T, D>, D);
-container_ops!(mat_un, mat_bin, Mat<'a, T>);
+container_ops!(ten_un, ten_bin, ten_ty, ten_owned, Ten<'a, T, D>, [TensorMut<(T, Index), D>], D);
+container_ops!(mat_un, mat_bin, mat_ty, mat_owned, Mat<'a, T>, [MatrixMut<(T, Index)> + NoInteriorMutability]);
 
-pub fn ten_matmul<'a, T: Real + Primitive + Clone + 'static>(
-    x: &Ten<'a, T, 2>,
-    y: &Ten<'a, T, 2>,
+pub fn ten_matmul<'a, T, S1, S2>(
+    x: &RecordTensor<'a, T, S1, 2>,
+    y: &RecordTensor<'a, T, S2, 2>,
     form: usize,
 ) -> Option<Ten<'a, T, 2>>
 where
+    T: Real + Primitive + Clone + 'static,
     for<'t> &'t T: RealRef<T>,
+    S1: TensorRef<(T, Index), 2>,
+    S2: TensorRef<(T, Index), 2>,
+    RecordTensor<'a, T, S1, 2>: Dup,
+    RecordTensor<'a, T, S2, 2>: Dup,
 {
     guarded(|| match form % 4 {
         0 => x * y,
-        1 => x.clone() * y.clone(),
-        2 => x * y.clone(),
-        _ => x.clone() * y,
+        1 => x.dup() * y.dup(),
+        2 => x * y.dup(),
+        _ => x.dup() * y,
     })
 }
 
-pub fn mat_matmul<'a, T: Real + Primitive + Clone + 'static>(
-    x: &Mat<'a, T>,
-    y: &Mat<'a, T>,
+pub fn mat_matmul<'a, T, S1, S2>(
+    x: &RecordMatrix<'a, T, S1>,
+    y: &RecordMatrix<'a, T, S2>,
     form: usize,
 ) -> Option<Mat<'a, T>>
 where
+    T: Real + Primitive + Clone + 'static,
     for<'t> &'t T: RealRef<T>,
+    S1: MatrixRef<(T, Index)> + NoInteriorMutability,
+    S2: MatrixRef<(T, Index)> + NoInteriorMutability,
+    RecordMatrix<'a, T, S1>: Dup,
+    RecordMatrix<'a, T, S2>: Dup,
 {
     guarded(|| match form % 4 {
         0 => x * y,
-        1 => x.clone() * y.clone(),
-        2 => x * y.clone(),
-        _ => x.clone() * y,
+        1 => x.dup() * y.dup(),
+        2 => x * y.dup(),
+        _ => x.dup() * y,
     })
 }
 
